@@ -148,15 +148,21 @@ def plain_call(P, given):
     executed = {}
     try:
         v = plain_eval(P, bound, (), False, executed)
-        vk = plain_eval(P, bound, (), False, {}, mode="keep")
     except Exception as e:  # noqa: BLE001
         return {"err": True, "exc": repr(e)[:100]}
+    exk = {}
+    try:
+        vk = plain_eval(P, bound, (), False, exk, mode="keep")
+        err_k = False
+    except Exception:  # noqa: BLE001
+        vk, err_k = None, True
     try:
         plain_eval(P, bound, (), False, {}, mode="index")
         err_i = False
     except Exception:  # noqa: BLE001
         err_i = True
-    return {"val": encode(v), "valK": encode(vk), "errI": err_i, "exec": sorted(list(k) for k in executed)}
+    return {"val": encode(v), "valK": encode(vk), "execK": sorted(list(k) for k in exk), "errK": err_k, "errI": err_i,
+            "exec": sorted(list(k) for k in executed)}
 
 
 # ---------------------------------------------------------------- the real DAG
